@@ -39,11 +39,16 @@ Inductive cop :=
 | CGet        (* context done exactly when the select would block *)
 | CGetC       (* context already cancelled: either ready branch of the select may be taken *)
 | CContains (b : list cmd) (obs : bool)     (* containsDuplicate(b) returned obs *)
-(* k Gets were started and all of them blocked; then x (an Add or a Proposed) ran while they waited;
-   racing = their context was cancelled together with x (before / after it, without waiting for the
-   Gets to react), otherwise only after everything had come to rest.  obs = the batches the k Gets
-   returned, in any order. *)
-| CWake (k : nat) (racing : bool) (x : cop) (obs : list (list cmd)).
+(* k concurrent Gets and a burst xs of Adds / Proposeds:
+     held = false: the k Gets were started first and all of them blocked (they are parked in their
+                   select) when the burst runs;
+     held = true : the k Gets are inside Get but held at their first ctx.Done() call (a context whose
+                   Done() blocks until released), i.e. past anything they do before waiting and not
+                   yet parked; the whole burst runs, then all are released at once.
+   racing = their context is cancelled together with the burst / the release (without waiting for
+   the Gets to react), otherwise only after everything has come to rest.
+   obs = the batches the k Gets returned, in any order. *)
+| CWake (k : nat) (held racing : bool) (xs : list cop) (obs : list (list cmd)).
 
 Fixpoint remove1 (b : list cmd) (l : list (list cmd)) : option (list (list cmd)) :=
   match l with
@@ -64,15 +69,21 @@ Definition simple_step (st : state) (x : cop) : option state :=
   | _ => None
   end.
 
-Definition wake_ok (st : state) (k : nat) (racing : bool) (x : cop) (obs : list (list cmd)) (st' : state) : bool :=
-  let '(st0, pre) := gets k st in
-  match pre, simple_step st0 x with
+Fixpoint simple_steps (st : state) (xs : list cop) : option state :=
+  match xs with
+  | [] => Some st
+  | x :: r => match simple_step st x with Some st' => simple_steps st' r | None => None end
+  end.
+
+Definition wake_ok (st : state) (k : nat) (held racing : bool) (xs : list cop) (obs : list (list cmd)) (st' : state) : bool :=
+  let '(st0, pre) := if held then (st, []) else gets k st in
+  match pre, simple_steps st0 xs with
   | [], Some st1 =>
       let ok (m : state * list (list cmd)) := state_eqb (fst m) st' && perm_eqb (snd m) obs in
       if racing
       then existsb (fun j => ok (gets j st1) && Nat.eqb (length (snd (gets j st1))) j) (seq 0 (S k))
       else ok (gets k st1)
-  | _, _ => false   (* the model says one of the k Gets would not have blocked *)
+  | _, _ => false   (* the model says one of the k parked Gets would not have blocked *)
   end.
 
 Definition cstep_ok (st : state) (o : cop) (obs : state * get_res) : bool :=
@@ -82,8 +93,8 @@ Definition cstep_ok (st : state) (o : cop) (obs : state * get_res) : bool :=
   | CGet => out_eqb (step st OGet) obs
   | CGetC => existsb (fun m => out_eqb m obs) (getc_outcomes st)
   | CContains b r => out_eqb (st, GContinue) obs && Bool.eqb (contains_dup st b) r
-  | CWake k racing x batches =>
-      res_eqb (snd obs) GContinue && wake_ok st k racing x batches (fst obs)
+  | CWake k held racing xs batches =>
+      res_eqb (snd obs) GContinue && wake_ok st k held racing xs batches (fst obs)
   end.
 
 (* (a) one transition *)
